@@ -18,7 +18,9 @@ import subprocess
 import sys
 import tempfile
 import time
+import warnings
 
+warnings.filterwarnings("ignore")
 HERE = os.path.dirname(os.path.realpath(__file__))
 VERIF = os.path.dirname(HERE)
 sys.path.insert(0, VERIF)
@@ -305,7 +307,7 @@ STUBS = ["wall clock (SimClock replaces module attribute `time`)", "log sink (ca
          "stdout (captured)", "SimMap delegation layer in front of the real map backend"]
 
 
-def do_check(prop, tier, count=None, jobs=None, seed=None, minimise_budget=45.0):
+def do_check(prop, tier, count=None, jobs=None, seed=None, minimise_budget=45.0, write_evidence=True):
     t0 = time.time()
     seed = int(os.environ.get("VERIF_SEED", DEFAULT_SEED)) if seed is None else seed
     tier = tier or os.environ.get("VERIF_TIER") or "quick"
@@ -428,9 +430,10 @@ def do_check(prop, tier, count=None, jobs=None, seed=None, minimise_budget=45.0)
         }
         if prop == "C10":
             ev["coverage"]["hash_seed_comparisons"] = hash_runs
-        os.makedirs(os.path.join(VERIF, "evidence"), exist_ok=True)
-        with open(os.path.join(VERIF, "evidence", prop + ".json"), "w") as f:
-            json.dump(ev, f, indent=1, sort_keys=True)
+        if write_evidence:
+            os.makedirs(os.path.join(VERIF, "evidence"), exist_ok=True)
+            with open(os.path.join(VERIF, "evidence", prop + ".json"), "w") as f:
+                json.dump(ev, f, indent=1, sort_keys=True)
         zero = [k for k in EXPECTED_PROBES.get(prop, []) if not probes.get(k)]
         if zero and tier == "thorough":
             say("WARNING reach probes at zero: %s" % ", ".join(zero))
@@ -579,6 +582,7 @@ def main():
     c.add_argument("--count", type=int, default=None)
     c.add_argument("--jobs", type=int, default=None)
     c.add_argument("--seed", type=int, default=None)
+    c.add_argument("--no-evidence", action="store_true")
     r = sub.add_parser("replay")
     r.add_argument("path")
     s = sub.add_parser("selftest")
@@ -588,7 +592,7 @@ def main():
     s.add_argument("--props", default=None)
     a = ap.parse_args()
     if a.cmd == "check":
-        sys.exit(do_check(a.prop, a.tier, a.count, a.jobs, a.seed))
+        sys.exit(do_check(a.prop, a.tier, a.count, a.jobs, a.seed, write_evidence=not a.no_evidence))
     if a.cmd == "replay":
         sys.exit(do_replay(a.path))
     if a.cmd == "selftest":
